@@ -198,3 +198,48 @@ func ParseMEvents(s string) []MEvent {
 	}
 	return out
 }
+
+// WriteScheduleStyle rewrites the three schedule files in another valid rendering (call after Write):
+// style 1 separates the columns by tabs, style 2 by runs of blanks and appends a comment token to every
+// line (the readers split at white space and use the first four tokens); style 0 keeps Write's files.
+func (p *Project) WriteScheduleStyle(root string, style int) error {
+	if style == 0 {
+		return nil
+	}
+	sep, tail := "\t", ""
+	if style == 2 {
+		sep, tail = "    ", "   #generated"
+	}
+	field := func(f string) string {
+		if f == "" {
+			return p.Field
+		}
+		return f
+	}
+	dir := filepath.Join(root, "project", p.Name)
+	var b strings.Builder
+	b.WriteString("Field_ID  N   Frt date\n")
+	for _, e := range p.Fert {
+		fmt.Fprintf(&b, "%s%s%d%s%s%s%s%s\n", field(e.Field), sep, e.Amount, sep, e.Kind, sep, e.Date.Fmt(p.DateFmt), tail)
+	}
+	b.WriteString("end\n")
+	if err := os.WriteFile(filepath.Join(dir, "fert_"+p.Name+".txt"), []byte(b.String()), 0o644); err != nil {
+		return err
+	}
+	b.Reset()
+	b.WriteString("Field_ID  Ir N03 date\n")
+	for _, e := range p.Irr {
+		fmt.Fprintf(&b, "%s%s%d%s%d%s%s%s\n", field(e.Field), sep, e.MM, sep, e.Conc, sep, e.Date.Fmt(p.DateFmt), tail)
+	}
+	b.WriteString("end\n")
+	if err := os.WriteFile(filepath.Join(dir, "irr_"+p.Name+".txt"), []byte(b.String()), 0o644); err != nil {
+		return err
+	}
+	b.Reset()
+	b.WriteString("Field_ID  Ti Typ date\n          cm\n")
+	for _, e := range p.Til {
+		fmt.Fprintf(&b, "%s%s%d%s%d%s%s%s\n", field(e.Field), sep, e.Depth, sep, e.Kind, sep, e.Date.Fmt(p.DateFmt), tail)
+	}
+	b.WriteString("end\n")
+	return os.WriteFile(filepath.Join(dir, "til_"+p.Name+".txt"), []byte(b.String()), 0o644)
+}
